@@ -653,6 +653,7 @@ class _SetOperation(Selectable, Term):  # type:ignore[misc]
         # row limiting follows the dialect of the base query's builder class (LIMIT/OFFSET, OFFSET..FETCH NEXT, ...)
         pager = copy(self.base_query)
         pager._limit, pager._offset, pager._orderbys = self._limit, self._offset, self._orderbys
+        pager._paginates_set_operation = True
         querystring = pager._apply_pagination(querystring, ctx)
 
         if ctx.subquery:
